@@ -40,7 +40,7 @@ M = [
  ('M-C12-push-full-gt', ['C12'], [(S+'arrays.c', "    /* Do not reallocate definite arrays */\n    if (metadata->end_ptr >= metadata->allocated) {", "    /* Do not reallocate definite arrays */\n    if (metadata->end_ptr > metadata->allocated) {")]),
  ('M-C12-linear-growth', ['C12'], [(S+'arrays.c', "                                  : CBOR_BUFFER_GROWTH * metadata->allocated;\n\n      unsigned char* new_data = _cbor_realloc_multiple(\n          array->data,", "                                  : metadata->allocated + 16;\n\n      unsigned char* new_data = _cbor_realloc_multiple(\n          array->data,")]),
  ('M-C13-stack-pop-libc-free', ['C13'], [(S+'internal/stack.c', "  _cbor_free(top);", "  free(top);")]),
- ('M-C13-sera-libc-pair', ['C13'], [(S+'serialization.c', "  *buffer = _cbor_malloc(serialized_size);\n  if (*buffer == NULL) {", "  void* probe = malloc(16);\n  free(probe);\n  *buffer = _cbor_malloc(serialized_size);\n  if (*buffer == NULL) {")]),
+ ('M-C13-sera-libc-pair', ['C13'], [(S+'serialization.c', "  *buffer = _cbor_malloc(serialized_size);\n  if (*buffer == NULL) {", "  void* probe = malloc(16);\n  if (probe) ((volatile char*)probe)[0] = 1;\n  free(probe);\n  *buffer = _cbor_malloc(serialized_size);\n  if (*buffer == NULL) {")]),
  ('M-C13-size-scratch', ['C13'], [(S+'serialization.c', "size_t cbor_serialize_alloc(const cbor_item_t* item, unsigned char** buffer,\n                            size_t* buffer_size) {\n  *buffer = NULL;\n  size_t serialized_size = cbor_serialized_size(item);", "size_t cbor_serialize_alloc(const cbor_item_t* item, unsigned char** buffer,\n                            size_t* buffer_size) {\n  *buffer = NULL;\n  size_t serialized_size = cbor_serialized_size(item);\n  if (cbor_isa_map(item)) { void* t = _cbor_malloc(8); _cbor_free(t); }"), (S+'serialization.c', "    case CBOR_TYPE_MAP: {\n      size_t map_size = cbor_map_is_definite(item)", "    case CBOR_TYPE_MAP: {\n      if (cbor_map_size(item) > 2) { void* t = _cbor_malloc(8); _cbor_free(t); }\n      size_t map_size = cbor_map_is_definite(item)")]),
  ('M-C14-loop-cond', ['C14', 'C02'], [('src/cbor.c', "  } while (stack.size > 0);", "  } while (stack.size > 0 || (result->read < source_size && source[result->read] == 0xFF && source_size - result->read == 1 && (result->read++, 0)));")]),
  ('M-C15-half-bias', ['C15', 'C02'], [(S+'internal/loaders.c', "    val = ldexp(mant + 1024, exp - 25);", "    val = ldexp(mant + 1024, exp == 30 ? exp - 24 : exp - 25);")]),
@@ -50,7 +50,7 @@ M = [
  ('M-C17-static-error', ['C17'], [('src/cbor.c', "  struct cbor_decoder_result decode_result;\n  *result =", "  static struct cbor_decoder_result decode_result;\n  *result =")]),
  ('M-C18-memo-size', ['C18'], [(S+'serialization.c', "      cbor_item_t** items = cbor_array_handle(item);\n      for (size_t i = 0; i < cbor_array_size(item); i++) {\n        array_size = _cbor_safe_signaling_add(array_size,\n                                              cbor_serialized_size(items[i]));\n      }\n      return array_size;", "      cbor_item_t** items = cbor_array_handle(item);\n      for (size_t i = 0; i < cbor_array_size(item); i++) {\n        array_size = _cbor_safe_signaling_add(array_size,\n                                              cbor_serialized_size(items[i]));\n      }\n      if (cbor_array_size(item) == 3) ((cbor_item_t*)item)->metadata.array_metadata.end_ptr = 3;\n      return array_size;")]),
  ('M-C19-limit-gt', ['C19', 'C05'], [(S+'internal/stack.c', "  if (stack->size == CBOR_MAX_STACK_SIZE) return NULL;", "  if (stack->size > CBOR_MAX_STACK_SIZE) return NULL;")]),
- ('M-C19-tags-free', ['C19'], [(S+'internal/builder_callbacks.c', "  cbor_item_t* res = cbor_new_tag(value);\n  CHECK_RES(ctx, res);\n  PUSH_CTX_STACK(ctx, res, 1);", "  cbor_item_t* res = cbor_new_tag(value);\n  CHECK_RES(ctx, res);\n  if (ctx->stack->size == CBOR_MAX_STACK_SIZE && ctx->stack->top->item->type == CBOR_TYPE_TAG) ctx->stack->size--, PUSH_CTX_STACK(ctx, res, 1), ctx->stack->size++; else\n  PUSH_CTX_STACK(ctx, res, 1);")]),
+ ('M-C19-tags-free', ['C19'], [(S+'internal/builder_callbacks.c', "  cbor_item_t* res = cbor_new_tag(value);\n  CHECK_RES(ctx, res);\n  PUSH_CTX_STACK(ctx, res, 1);", "  cbor_item_t* res = cbor_new_tag(value);\n  CHECK_RES(ctx, res);\n  bool at_limit = ctx->stack->size == CBOR_MAX_STACK_SIZE && ctx->stack->top->item->type == CBOR_TYPE_TAG;\n  if (at_limit) ctx->stack->size--;\n  PUSH_CTX_STACK(ctx, res, 1);\n  if (at_limit) ctx->stack->size++;")]),
  ('M-C20-mul-guard-plus1', ['C20'], [(S+'internal/memory_utils.c', "  return _cbor_highest_bit(a) + _cbor_highest_bit(b) <= sizeof(size_t) * 8;", "  return _cbor_highest_bit(a) + _cbor_highest_bit(b) <= sizeof(size_t) * 8 + 1;")]),
  ('M-C20-sigadd-wrap', ['C20'], [(S+'internal/memory_utils.c', "  if (_cbor_safe_to_add(a, b)) return a + b;\n  return 0;", "  return a + b;")]),
  # ---- benign refactorings: every check must stay green
